@@ -214,6 +214,12 @@ pub fn run(ctx: &'static Ctx) {
             }
         }
     });
+    // field entries in sequence (an entry's PkgLength must not depend on the entries before it): judged by the term
+    // parser of C06, which decodes every entry's width
+    let nfs = crate::props::c06::field_sequences(ctx);
+    ctx.st(nfs);
+    ctx.tr(nfs);
+    ctx.engine("E4.field-entry-sequences", json!({"sequences": nfs}));
     // the same sites with every name form (1, 2, 3, 10 segments, relative and rooted) and with a child that writes a
     // 64-bit constant straight to the sink; body sizes around every width threshold and every size up to 300
     let vpads: Vec<usize> = (0..=300usize).chain(4060..=4110).chain((1 << 20) - 40..=(1 << 20)).collect();
